@@ -1,6 +1,6 @@
 \* Encoding migration, edge cover replayed on the real FSM (quick tier of C07): as
 \* FSM_mig.cfg with <= 2 further entries, one snapshot, one crash in either life.
-\* EmitEdge prints the history of every generated transition.
+\* EmitEdge prints the history of every generated transition (1,830 states, 3,378 transitions).
 SPECIFICATION Spec
 CONSTANTS
     Alphabet <- AlphaMig
